@@ -21,6 +21,7 @@ import (
 	"github.com/invopop/gobl/internal/cli"
 	"github.com/invopop/gobl/schema"
 	"github.com/invopop/gobl/verifharness/internal/corpus"
+	"github.com/invopop/gobl/verifharness/internal/docgen"
 	"github.com/invopop/gobl/verifharness/internal/jsontree"
 	"github.com/invopop/gobl/verifharness/internal/vh"
 	"pgregory.net/rapid"
@@ -213,7 +214,7 @@ type MutCase struct {
 var hostileValues = []string{
 	`null`, `""`, `" "`, `0`, `-1`, `1e999`, `123456789012345678901234567890`, `0.0000000000000000000000001`, `true`, `[]`, `{}`, `[null]`, `[[]]`, `{"":null}`,
 	`"ZZZ"`, `"XX"`, `"FJ"`, `"xx-unknown-v1"`, `"https://gobl.org/draft-0/bill/nonexistent"`, `"https://gobl.org/draft-0/bill/invoice"`, `"9999-99-99"`, `"0000-00-00"`,
-	`"-"`, `"%"`, `"100%"`, `"-0"`, `"1.5.2"`, `"99999999999999999999"`, `"00000000-0000-0000-0000-000000000000"`, `"not-a-uuid"`, `[""]`, `[null,null]`,
+	`"-"`, `"%"`, `"100%"`, `"-100%"`, `"-100.0%"`, `"-1"`, `"-0"`, `"1.5.2"`, `"99999999999999999999"`, `"00000000-0000-0000-0000-000000000000"`, `"not-a-uuid"`, `[""]`, `[null,null]`,
 	`"\u0000"`, `"😀"`, `"é A-1"`, `{"a":{"a":{"a":{"a":{"a":{"a":{"a":{"a":{"a":{"a":{"a":{"a":{"a":{"a":{"a":{"a":1}}}}}}}}}}}}}}}}`,
 	`[[[[[[[[[[[[[[[[[[[[[[[[[[[[[[[[1]]]]]]]]]]]]]]]]]]]]]]]]]]]]]]]]`,
 }
@@ -383,7 +384,8 @@ func enumSingleEdits(yield func(MutCase) bool) {
 				if idx%cfg.Shards != cfg.Shard {
 					continue
 				}
-				if !vh.Thorough() && idx%(3*cfg.Shards) != cfg.Shard%3*cfg.Shards+cfg.Shard && false {
+				// quick tier: a tenth of the nodes, rotating with the seed (thorough: all)
+				if !vh.Thorough() && (idx/cfg.Shards)%10 != int(cfg.Seed%10) {
 					continue
 				}
 				if !yield(MutCase{Doc: d.Path, Envelope: useEnv, Ops: []Op{{Kind: "delete", Ptr: nd.Ptr}}}) {
@@ -478,10 +480,38 @@ func judgeBytes(c BytesCase, o *vh.Obs) {
 	}
 }
 
+// longSleep reports whether the stream asks the bulk "sleep" test action for
+// more than a moment: doing as asked is not a hang.
+func longSleep(data []byte) bool {
+	dec := json.NewDecoder(bytes.NewReader(data))
+	for {
+		var req struct {
+			Action  string          `json:"action"`
+			Payload json.RawMessage `json:"payload"`
+		}
+		if err := dec.Decode(&req); err != nil {
+			return false
+		}
+		if req.Action == "sleep" {
+			var d string
+			if json.Unmarshal(req.Payload, &d) == nil {
+				if dur, err := time.ParseDuration(d); err == nil && dur > 200*time.Millisecond {
+					return true
+				}
+			}
+		}
+	}
+}
+
 func judgeBulkBytes(c BytesCase, o *vh.Obs) {
+	if longSleep(c.Data) {
+		o.Class("long-sleep-requested")
+		o.Discard()
+		return
+	}
 	// the bytes are the request stream itself
 	guarded(o, "bulk-stream", func() {
-		ctx, cancel := context.WithTimeout(context.Background(), watchdog)
+		ctx, cancel := context.WithTimeout(context.Background(), watchdog/2)
 		defer cancel()
 		n := 0
 		final := 0
@@ -542,12 +572,20 @@ var fuzzParse, fuzzBulk func(t *testing.T, c BytesCase)
 
 func init() {
 	vh.Describe(
-		"(1) every single edit (delete; set to null / [null] / \"\" / {}; insert a null element; duplicate the first element) of every node of every example document and of its calculated envelope, exhaustively; (2) rapid: 1-3 random edits drawn from a hostile value list (nulls, retyped values, unknown currency / country / regime / addon / schema ids, empty and huge numbers, empty and null signatures, deep nesting, duplicated elements); (3) fixed hostile texts and truncated examples; (4) thorough: native fuzzing of the parser pipeline and of the bulk request stream. Every input goes through Parse, Envelop, Calculate, Validate, Digest, Verify, Sign, Correct (7 option variants), Replicate, Invert, RemoveIncludedTaxes, Marshal and through bulk build / validate / correct / replicate / verify requests. Oracle: no panic (signature = first gobl frame), no hang (20 s watchdog), every envelope-API error is a *gobl.Error with a documented key that serialises to JSON, every bulk request is answered and the stream ends with one final marker. Non-trivial: the input parses (reaches logic beyond unmarshalling).",
+		"(1) every single edit (quick tier: of a tenth of the nodes, rotating with the seed) (delete; set to null / [null] / \"\" / {}; insert a null element; duplicate the first element) of every node of every example document and of its calculated envelope, exhaustively; (2) rapid: 1-3 random edits drawn from a hostile value list (nulls, retyped values, unknown currency / country / regime / addon / schema ids, empty and huge numbers, empty and null signatures, deep nesting, duplicated elements); (3) fixed hostile texts and truncated examples; (3b) generated documents (internal/docgen) with legal but degenerate numbers: -100% / 0% / huge percentages also as tax rates, with and without included taxes; (4) thorough: native fuzzing of the parser pipeline and of the bulk request stream. Every input goes through Parse, Envelop, Calculate, Validate, Digest, Verify, Sign, Correct (7 option variants), Replicate, Invert, RemoveIncludedTaxes, Marshal and through bulk build / validate / correct / replicate / verify requests. Oracle: no panic (signature = first gobl frame), no hang (20 s watchdog), every envelope-API error is a *gobl.Error with a documented key that serialises to JSON, every bulk request is answered and the stream ends with one final marker. Non-trivial: the input parses (reaches logic beyond unmarshalling).",
 		"a watchdog expiry is reported as a hang only through the replay file (replay must reproduce it)",
 	)
 	vh.Enum("seeds", enumSeeds, judgeBytes)
 	vh.Enum("single_edits", enumSingleEdits, judgeMutant)
-	vh.Rapid("mutants", 20_000, 1_200_000, genMutCase, judgeMutant)
+	vh.Rapid("mutants", 8_000, 1_200_000, genMutCase, judgeMutant)
+	vh.Rapid("generated_hostile", 4_000, 400_000, func(t *rapid.T) docgen.Plan {
+		return docgen.GenPlan(t, docgen.Opts{Hostile: true, MaxLines: 4})
+	}, func(p docgen.Plan, o *vh.Obs) {
+		pipeline(p.JSON(), o)
+		if p.PricesInclude != "" {
+			o.Class("tax-included")
+		}
+	})
 	fuzzParse = vh.FuzzTarget("FuzzParse", judgeBytes)
 	fuzzBulk = vh.FuzzTarget("FuzzBulk", judgeBulkBytes)
 }
